@@ -77,6 +77,12 @@ pub fn strip_flags(keep_safe: bool) -> Box<dyn Fn(&str) -> String + Send> {
     })
 }
 
+pub fn report_ddl_flags(ctx: &mut Ctx) {
+    use std::sync::atomic::Ordering::Relaxed;
+    ctx.count_by("ddl_safe.cases_seen", CONTENT_SEEN.load(Relaxed));
+    ctx.count_by("ddl_safe.hypothesis_holds", CONTENT_P.load(Relaxed));
+}
+
 pub fn report_flags(ctx: &mut Ctx) {
     use std::sync::atomic::Ordering::Relaxed;
     ctx.count_by("render_safe.cases_seen", CONTENT_SEEN.load(Relaxed));
